@@ -61,3 +61,12 @@ claim("C14", "call-graph reachability (class-hierarchy resolution) + panic-site 
       "claim is only that the set does not grow. Termination and memory bounds beyond (a) are not decided.",
       "trusted: rustc MIR, fact dumper; external crates are leaves modelled by the list of panicking entry points in rules/c14.py; class-U inventory rows carry no safety claim",
       "DESIGN.md section 4, C14")
+claim("C13", "Eq-completeness over MIR field reads + call-graph reachability from tracked functions + who-may-construct / who-may-call rules",
+      "Every hand-written equality of a workspace type compares every field (or only derived caches are ignored, each checked to be "
+      "derived), Hash never reads more than Eq; every file-system read reachable from a salsa tracked function is dominated by "
+      "report_untracked_read (one reasoned exception: crate-cache blobs); SyntaxNode values are constructed only in from_data / "
+      "new_syntax_node with cache fields derived from the node data, canonical roots only by the parser's file query; the tracked fields of "
+      "SyntaxNodeData are exactly green and offset_in_parent; every interior-mutable static is enumerated and none is written from "
+      "tracked-reachable code." + DECIDES + " The equivalence of incremental and from-scratch results over all edit histories is not decided.",
+      "trusted: rustc MIR, fact dumper, class-hierarchy call graph restricted to visible crates; derived PartialEq is complete by construction",
+      "DESIGN.md section 4, C13")
